@@ -324,6 +324,31 @@ def r02_9(ctx, rep):
     table_verdicts(ctx, rep, "R02.9")
 
 
+@SPEC.rule(
+    "R02.10",
+    "nothing before the first SQL statement can fail because another caller got there first: every directory creation in parser.py "
+    "tolerates an existing directory (`mkdir(..., exist_ok=True)` / `os.makedirs(..., exist_ok=True)`) — an `if not exists(): mkdir()` "
+    "is a check-then-act race that raises FileExistsError in the slower of two first-time callers; and the once-per-process memo is "
+    "keyed by the database connected to",
+)
+def r02_10(ctx, rep):
+    from .c01 import once_per_process_key
+    R = "R02.10"
+    mod = ctx.module(PARSER)
+    n = 0
+    for fn in [x for x in mod.body if isinstance(x, ast.FunctionDef)]:
+        for c in calls(fn):
+            nm = norm(c.func)
+            if nm.endswith(".mkdir") or nm.endswith("makedirs"):
+                n += 1
+                ok = any(k.arg == "exist_ok" and isinstance(k.value, ast.Constant) and k.value.value is True for k in c.keywords)
+                rep.ob(R, PARSER + ":" + fn.name, "directory creation `%s` tolerates an existing directory" % norm(c)[:60], ok,
+                       "without exist_ok=True the loser of two simultaneous first-time calls raises FileExistsError whatever test precedes the call")
+    if n < 1:
+        raise MechanismMissing(R, "no directory creation found in parser.py")
+    once_per_process_key(ctx, rep, R)
+
+
 # -- seeded variants ---------------------------------------------------------
 from ._mut import delete_stmt_where, replace_const_str, replace_in_func  # noqa: E402
 
